@@ -125,7 +125,9 @@ func checkRow(run *vk.Run, r reqRow, raw string) {
 	}
 	ctx := endorse.NewContext(fx.Ctx(&keys.Context{CA: ca, Signer: signer}, false, false), ec)
 	rep := map[string]any{"request": r}
-	viol := func(key, f string, a ...any) { run.Violation(key, fmt.Sprintf(f, a...)+fmt.Sprintf(" [request %s]", raw), rep) }
+	viol := func(key, f string, a ...any) {
+		run.Violation(key, fmt.Sprintf(f, a...)+fmt.Sprintf(" [request %s]", raw), rep)
+	}
 	var g *epb.VMGoldenMeasurement
 	func() {
 		defer func() {
